@@ -266,7 +266,7 @@ add("C25", "exploration", ["agdb_server", "srvh"], http_steps("c25", ["--n", "6"
     "differential twin (in-process DbMemory with an independent result-injection implementation) + audit log checker over a real agdb_server process",
     "Generated batches with reads, writes, failing queries at every position and ':i' result references are submitted through exec and exec_mut by two "
     "users; an in-process twin database decides success and the expected results; after every batch the server's state fingerprint must equal the "
-    "twin's (all-or-nothing), and the audit endpoint must list exactly the mutating queries of the applied batches, in order, with the submitting user.",
+    "twin's (all-or-nothing), and the audit endpoint must list exactly the mutating queries of the applied batches, in order, with the submitting user; file-backed cases end with a server restart after which both must still hold.",
     "Memory, mapped and file database kinds; one node.",
     "DESIGN.md §6 C25", replay_bin=SRVH, engine="srvh")
 
